@@ -19,7 +19,8 @@ EXPLANATION = (
     "decided by the sign of factored normal forms (including a*sqrt(A)+b through a^2*A-b^2) - and the result must be the normal form "
     "`y`; where the piece is not decided, at least one piece of the kernel must be inverted by the formula. I2: the value is a real "
     "number (no square root / logarithm outside its domain, no vanishing denominator). M1: is_monotonic() is True iff the class "
-    "overrides tsukamoto(); D3: every parameter membership() reads is read by tsukamoto(); elementwise safety of the inverse kernels"
+    "overrides tsukamoto(); D3: every parameter membership() reads is read by tsukamoto(); elementwise safety of the inverse kernels; operators only after "
+    "scalar() coercion (V8)"
 )
 ASSUMPTIONS = [
     "real arithmetic (rounding not modelled); y strictly between 0 and height; parameters finite, start != end (SShape/ZShape: start < end)",
